@@ -229,6 +229,7 @@ func runC06(tier string) int {
 	// prepared pairs of contents with equal 64-bit digests
 	hashCollisionFiles(r, "C06")
 	c06ConditionChains(r)
+	pairDataFiles(r, "C06")
 	massTextsFile(r, "C06", tier)
 	completed := c06Enumerate(r, maxSlots, rotations, func(data []datum, dist []int, rot, clash int) { c06Eval(r, data, dist, rot, clash) })
 	if completed < maxSlots {
